@@ -39,6 +39,8 @@ APPENDERS = {"Write", "operator+=", "operator<<", "Buffer"}
 DIGIT_EDITS = {"InsertAt", "Reverse", "StepBack", "SetLength", "Storage", "First", "Last", "End"}
 
 
+META["explanation"] += " " + 'Taken over unchanged from other modules because a seeded change to this property was reported by them (rules.common.shared): IDX-ensure from C01; BORROW from C16.'
+
 def setup(ctx, m):
     fx = FX(m)
     ents = [f for f in m.functions if f.q == "Qentem::TemplateCore::Render" and len(f.params) == 3]
@@ -72,7 +74,7 @@ def setup(ctx, m):
     return fx, entry, B, fields
 
 
-def run(ctx):
+def _run_own(ctx):
     rules = []
     configs = ["sse2"] if ctx.tier == "quick" else ["sse2", "char16", "char32", "wchar", "scalar", "avx2"]
     r_in = Rule("FX-input", "no store reachable from Render lands in the value, the tag cache, the template text or an unknown region", floor=300)
@@ -250,3 +252,12 @@ def run(ctx):
     from rules.common import rule_copy_kind, rule_stream_past
     rules += [r_in, r_st, r_ap, r_cx, r_pc, rule_copy_kind(ctx, ctx.pattern()), rule_stream_past(ctx, ctx.pattern())]
     return rules
+
+
+def run(ctx):
+    rules_ = list(_run_own(ctx) or [])
+    from rules.common import shared
+    have = set(r_.rid for r_ in rules_)
+    rules_ += [r_ for r_ in shared(ctx, 'C01', ['IDX-ensure']) if r_.rid not in have]
+    rules_ += [r_ for r_ in shared(ctx, 'C16', ['BORROW']) if r_.rid not in have]
+    return rules_
